@@ -3,6 +3,7 @@ package props
 import (
 	"fmt"
 	"strings"
+	"time"
 	"unsafe"
 
 	proto "github.com/kubewharf/kubebrain-client/api/v2rpc"
@@ -83,6 +84,9 @@ type c04Cfg struct {
 	threads [][]c04Req
 	fault   hx.FaultKind
 	faultAt int // commit ordinal (counted after the initial state), -1 none
+	// repair: after the requests the retry interval elapses (the unknown-outcome repair loop runs) and
+	// its first commit meets this fate: 0 not run, 1 ok, 2 plain error, 3 unknown outcome (dropped)
+	repair int
 }
 
 func (c c04Cfg) name() string {
@@ -97,6 +101,9 @@ func (c c04Cfg) name() string {
 	f := "nofault"
 	if c.faultAt >= 0 {
 		f = fmt.Sprintf("fault%d@commit%d", c.fault, c.faultAt)
+	}
+	if c.repair > 0 {
+		f += fmt.Sprintf("/repair%d", c.repair)
 	}
 	return "C04/mem/" + strings.Join(ts, "|") + "/" + f
 }
@@ -195,6 +202,25 @@ func c04Scenario(c c04Cfg) *mc.Scenario {
 			}
 			x.Fail("C04|stall|"+cls, "after all requests returned and the node is quiescent the read revision is %d but %d was handed out (requests %v, outcomes %v)", committed, issued, kinds, outs)
 		}
+		if c.repair > 0 {
+			// the retry interval elapses: the repair loop rewrites what it finds; its first commit may fail too
+			hit := false
+			w.kv.CommitFault = func(n int, b *hx.BatchRec) hx.FaultKind {
+				if b.Thread == "0.2" && !hit {
+					hit = true
+					return []hx.FaultKind{hx.NoFault, hx.NoFault, hx.FailPlain, hx.UncertainDropped}[c.repair]
+				}
+				return hx.NoFault
+			}
+			for i := 0; i < 3; i++ {
+				vrt.Advance(6 * time.Second)
+				vrt.Quiesce()
+			}
+			committed, issued = backend.VerifPeek(w.b)
+			if committed != issued {
+				x.Fail("C04|stall|after-repair", "after the unknown-outcome repair loop ran (fate of its first commit: %d) the read revision is %d but %d was handed out", c.repair, committed, issued)
+			}
+		}
 		// a later write must become readable and watchable
 		w.kv.CommitFault = nil
 		probe := &clientOp{Key: "/r/probe", Kind: rCreate, Val: "p"}
@@ -248,6 +274,11 @@ func c04Configs(tier string) []c04Cfg {
 		for at := 0; at < len(s); at++ {
 			for _, f := range faults {
 				out = append(out, c04Cfg{threads: [][]c04Req{s}, fault: f, faultAt: at})
+				if f != hx.FailPlain {
+					for rp := 1; rp <= 3; rp++ {
+						out = append(out, c04Cfg{threads: [][]c04Req{s}, fault: f, faultAt: at, repair: rp})
+					}
+				}
 			}
 		}
 	}
@@ -277,7 +308,7 @@ func init() {
 			"(b) every request sequence of length 1-2 over 9 outcome classes x every engine fault kind (plain error, unknown outcome applied / not applied) on every commit, run to quiescence: read revision = highest revision handed out, and a probe write is readable and watchable",
 		Assume: []string{
 			"quiescence is decided by the scheduler (every thread blocked or in a read-only cycle with no pending write), not by a timeout",
-			"the virtual clock does not advance during these scenarios (the unknown-outcome retry loop never fires; its behaviour is C09's subject)",
+			"the virtual clock advances only in the repair variants of the sequential scenarios (the retry loop then runs, with 3 fates of its first commit); convergence of store and events is C09's subject",
 			"in-memory engine only",
 		},
 		Scenarios: func(tier string) []*mc.Scenario {
